@@ -102,7 +102,10 @@ class ThreadWorker(base.Worker):
         self.alive = False
         # worker_int callback
         self.cfg.worker_int(self)
-        self.tpool.shutdown(False)
+        # no tpool.shutdown() here: this is a signal handler, and if the
+        # signal arrived while the main thread was inside tpool.submit() the
+        # executor's (non-reentrant) lock is held by this very thread.  The
+        # interpreter ends the idle pool threads on its way out.
         time.sleep(0.1)
         sys.exit(0)
 
